@@ -470,3 +470,11 @@ seq_min = z3.Function("seq_min", IntSeq, z3.IntSort())
 # recursive spec predicate over integer sequences, unfolded by the executor at every append:
 #   strictly_increasing([]) ; strictly_increasing(s ++ [v]) == strictly_increasing(s) and all(x < v for x in s)
 seq_incr = z3.Function("strictly_increasing", IntSeq, z3.BoolSort())
+
+_PS = z3.RecFunction("prefix_sum", z3.ArraySort(z3.IntSort(), z3.IntSort()), z3.IntSort(), z3.IntSort())
+_a, _k = z3.Const("ps_a", z3.ArraySort(z3.IntSort(), z3.IntSort())), z3.Int("ps_k")
+z3.RecAddDefinition(_PS, [_a, _k], z3.If(_k <= 0, 0, _PS(_a, _k - 1) + z3.Select(_a, _k - 1)))
+
+
+def prefix_sum(arr, k):
+    return _PS(arr, k)
